@@ -31,18 +31,41 @@ def close(a, b, rel=1e-12):
 # ------------------------------------------------------------------ (i) formulas
 
 
+_COSTS = [{"cls": "L2Cost"}, {"cls": "GaussianVarCost"}, {"cls": "GaussianCovCost"}, {"cls": "L1Cost"},
+          {"cls": "TrendPenalisedL2Cost"}, {"cls": "L2Cost", "param": 0.5}, {"cls": "GaussianVarCost", "param": {"tuple": [0.0, 1.0]}}]
+_CHANGE_SCORES = [{"cls": "CUSUM"}, {"cls": "ChangeScore", "cost": {"cls": "GaussianVarCost"}}, {"cls": "GaussianVarCost"},
+                  {"cls": "ChangeScore", "cost": {"cls": "GaussianCovCost"}}, {"cls": "L1Cost"}, {"cls": "WeightedCUSUM"}]
+SCORER_CHOICES = {
+    "PELT": [None] + _COSTS,
+    "SeededBinarySegmentation": [None] + _CHANGE_SCORES,
+    "MovingWindow": [None] + _CHANGE_SCORES,
+    "CircularBinarySegmentation": [None, {"cls": "L2Cost"}, {"cls": "GaussianVarCost"}, {"cls": "LocalAnomalyScore", "cost": {"cls": "GaussianCovCost"}},
+                                   {"cls": "LocalAnomalyScore", "cost": {"cls": "GaussianVarCost"}}],
+}
+
+
 @st.composite
 def formula_cases(draw, tier):
     det = draw(st.sampled_from(["PELT", "SeededBinarySegmentation", "CAPA", "MovingWindow", "CircularBinarySegmentation"]))
     p = draw(st.integers(1, 5))
     scale = draw(st.one_of(st.sampled_from([0.5, 2.5, 0.0, 1.0, 3.7]), st.floats(0.0, 10.0, allow_nan=False)))
     case = {"detector": det, "p": p, "scale": scale}
+    # the documented defaults depend on the shape of the data only, whatever scorer (and number of parameters it estimates) is used
+    scorer = draw(st.sampled_from(SCORER_CHOICES[det])) if det in SCORER_CHOICES else None
+    msl = 2
+    if scorer is not None and "GaussianCovCost" in str(scorer):
+        p = case["p"] = draw(st.integers(1, 3))
+        msl = p + 1
     if det == "PELT":
-        case["n"] = draw(st.integers(4, 400))
-        case["params"] = {"penalty_scale": scale, "min_segment_length": 2}
+        case["n"] = draw(st.integers(2 * msl, 400))
+        case["params"] = {"penalty_scale": scale, "min_segment_length": msl}
+        if scorer is not None:
+            case["params"]["cost"] = scorer
     elif det == "SeededBinarySegmentation":
-        case["n"] = draw(st.integers(4, 400))
-        case["params"] = {"threshold_scale": scale, "min_segment_length": 2, "max_interval_length": draw(st.integers(4, 300))}
+        case["n"] = draw(st.integers(2 * msl, 400))
+        case["params"] = {"threshold_scale": scale, "min_segment_length": msl, "max_interval_length": draw(st.integers(2 * msl, 300))}
+        if scorer is not None:
+            case["params"]["change_score"] = scorer
     elif det == "CAPA":
         sav = draw(st.sampled_from(["L2", "GaussianVar", "GaussianCov", "default"]))
         if sav == "GaussianCov":
@@ -56,13 +79,19 @@ def formula_cases(draw, tier):
         case["params"] = {"collective_saving": spec, "collective_penalty_scale": scale,
                           "point_penalty_scale": draw(st.sampled_from([0.5, 1.0, 0.0, 2.0])), "min_segment_length": max(2, msl)}
     elif det == "MovingWindow":
-        bw = draw(st.integers(1, 40))
+        bw = draw(st.integers(msl, 40))
         case["n"] = draw(st.integers(2 * bw + 1, 2 * bw + 300))
         case["params"] = {"bandwidth": bw, "threshold_scale": scale, "level": draw(st.one_of(st.sampled_from([0.01, 0.05, 0.3]), st.floats(1e-6, 0.9)))}
+        if scorer is not None:
+            case["params"]["change_score"] = scorer
     else:
-        mil = draw(st.integers(4, 300))
-        case["n"] = draw(st.integers(4, 200))
-        case["params"] = {"threshold_scale": scale, "min_segment_length": 2, "max_interval_length": mil}
+        mil = draw(st.integers(2 * msl, 300))
+        case["n"] = draw(st.integers(2 * msl, 200))
+        case["params"] = {"threshold_scale": scale, "min_segment_length": msl, "max_interval_length": mil}
+        if scorer is not None:
+            case["params"]["anomaly_score"] = scorer
+    if scorer is not None:
+        case["scorer"] = scorer["cls"] + ("(" + next(iter(v["cls"] for v in scorer.values() if isinstance(v, dict) and "cls" in v), "") + ")")
     return case
 
 
@@ -107,7 +136,7 @@ def check_formula(case):
         if not close(float(det.point_penalty_), ps * float(detp.point_penalty_), 1e-10) or det.point_penalty_ < 0:
             raise Violation("CAPA.point_penalty_ is not proportional to point_penalty_scale", scale=ps,
                             got=float(det.point_penalty_), at_scale_one=float(detp.point_penalty_))
-    return {"nontrivial": scale not in (0.0, 1.0), "classes": [f"det={det_name}"]}
+    return {"nontrivial": scale not in (0.0, 1.0), "classes": [f"det={det_name}", f"scorer={case.get('scorer', 'default')}"]}
 
 
 # ------------------------------------------------------------------ (ii) tuned thresholds
@@ -245,9 +274,9 @@ def monotone_cases(draw, tier):
     p = draw(st.integers(1, 3))
     msl = draw(st.integers(K.scorer_min_size(cost, p), 4))
     n = draw(st.integers(2 * msl, 50))
-    X, _ = draw(D.structured_matrix(n, p, boundary_positions=(msl, n - msl)))
     s1 = draw(st.one_of(st.sampled_from([0.0, 0.1, 0.5, 1.0]), st.floats(0, 2)))
     s2 = s1 + draw(st.one_of(st.sampled_from([0.01, 0.1, 0.5, 2.0]), st.floats(1e-3, 3)))
+    X, _ = draw(D.structured_matrix(n, p, boundary_positions=(msl, n - msl)))  # bulk data last (strategies/data.py)
     return {"cost": cost, "msl": msl, "X": X, "s1": s1, "s2": s2}
 
 
